@@ -22,12 +22,15 @@ pub enum Regime {
     Tcp512,
     /// Dublin / IPv6: the sequence is carried as the payload length
     DublinV6,
+    /// TCP with the Dublin strategy and an IPv6 target (accepted by the builder, not by the CLI):
+    /// up to 512 sequences per round *and* the Dublin/IPv6 wrap threshold initial + 512
+    TcpDublinV6,
 }
 
 impl Regime {
     fn max_per_round(self) -> u16 {
         match self {
-            Regime::Tcp512 => 512,
+            Regime::Tcp512 | Regime::TcpDublinV6 => 512,
             _ => 254,
         }
     }
@@ -37,6 +40,12 @@ fn config(init: u16, regime: Regime) -> StrategyConfig {
     let (protocol, strategy, target, ports) = match regime {
         Regime::General254 => (Protocol::Icmp, MultipathStrategy::Classic, IpAddr::V4(Ipv4Addr::new(10, 200, 0, 9)), PortDirection::None),
         Regime::Tcp512 => (Protocol::Tcp, MultipathStrategy::Classic, IpAddr::V4(Ipv4Addr::new(10, 200, 0, 9)), PortDirection::new_fixed_dest(80)),
+        Regime::TcpDublinV6 => (
+            Protocol::Tcp,
+            MultipathStrategy::Dublin,
+            IpAddr::V6(Ipv6Addr::new(0xfd00, 0, 0, 9, 0, 0, 0, 9)),
+            PortDirection::new_fixed_dest(80),
+        ),
         Regime::DublinV6 => (
             Protocol::Udp,
             MultipathStrategy::Dublin,
@@ -112,7 +121,7 @@ fn check_round_inner(
     start: u16,
     deferred: &mut Option<Fail>,
 ) -> Result<(), Fail> {
-    let reissue_from = if regime == Regime::Tcp512 { (n / 2).max(1) } else { n };
+    let reissue_from = if regime.max_per_round() == 512 { (n / 2).max(1) } else { n };
     let seqs = issue(st, n, reissue_from);
     for (i, q) in seqs.iter().enumerate() {
         vensure!(
@@ -122,6 +131,7 @@ fn check_round_inner(
         );
         vensure!(*q < 65535, "reaches-65535", "init {init} {regime:?}: sequence {q} issued");
         if regime == Regime::DublinV6 {
+            // (TCP never dispatches through the Dublin/IPv6 payload path)
             vensure!(
                 usize::from(*q - init) + 6 <= 976,
                 "dublin-payload-too-long",
@@ -141,7 +151,7 @@ fn check_round_inner(
     if m == 0 {
         return Ok(());
     }
-    let next = issue(st, m, if regime == Regime::Tcp512 { (m / 2).max(1) } else { m });
+    let next = issue(st, m, if regime.max_per_round() == 512 { (m / 2).max(1) } else { m });
     let s2 = next[0];
     let end = u32::from(start) + u32::from(n);
     vensure!(
@@ -159,6 +169,8 @@ fn check_round_inner(
             if after != before {
                 let sig = if regime == Regime::Tcp512 && init > 63999 {
                     "prev-round-seq-valid:tcp>254-per-round:init>63999"
+                } else if regime == Regime::TcpDublinV6 {
+                    "prev-round-seq-valid:tcp>254-per-round:dublin-ipv6"
                 } else {
                     "prev-round-seq-valid"
                 };
@@ -213,7 +225,7 @@ fn reach(init: u16, regime: Regime, s: u16) -> Option<VerifTracerState> {
 
 fn max_sequence(init: u16, regime: Regime) -> u32 {
     match regime {
-        Regime::DublinV6 => u32::from(init) + 512,
+        Regime::DublinV6 | Regime::TcpDublinV6 => u32::from(init) + 512,
         _ => 65535 - 512,
     }
 }
@@ -222,7 +234,7 @@ fn walk_cases(tier: Tier) -> Vec<WalkCase> {
     let inits: &[u16] = &[0, 1, 33434, 63999, 64000, 64257, 64258, 64510, 64511];
     let mut out = vec![];
     for &init in inits {
-        for regime in [Regime::General254, Regime::Tcp512, Regime::DublinV6] {
+        for regime in [Regime::General254, Regime::Tcp512, Regime::DublinV6, Regime::TcpDublinV6] {
             let maxs = max_sequence(init, regime);
             // regions of round starts: near the initial sequence and near the wrap threshold
             let mut regions: Vec<(u32, u32)> = vec![(u32::from(init), (u32::from(init) + 600).min(maxs))];
@@ -318,7 +330,7 @@ pub struct HistCase {
 fn hist_strat() -> BoxedStrategy<HistCase> {
     (
         crate::simnet::gen::initial_sequence(),
-        prop_oneof![Just(Regime::General254), Just(Regime::Tcp512), Just(Regime::DublinV6)],
+        prop_oneof![Just(Regime::General254), Just(Regime::Tcp512), Just(Regime::DublinV6), Just(Regime::TcpDublinV6)],
     )
         .prop_flat_map(|(init, regime)| {
             let nmax = regime.max_per_round();
@@ -331,8 +343,8 @@ fn hist_strat() -> BoxedStrategy<HistCase> {
 
 fn hist_test(c: &HistCase, obs: &mut Obs) -> CheckResult {
     // the recorded finding lives in this region; it is reported by the exhaustive walk
-    if c.regime == Regime::Tcp512 && c.init > 63999 {
-        obs.excluded("known finding region: TCP with initial sequence > 63999");
+    if (c.regime == Regime::Tcp512 && c.init > 63999) || c.regime == Regime::TcpDublinV6 {
+        obs.excluded("known finding region: TCP rounds of more than 254 sequences with initial sequence > 63999 or Dublin/IPv6");
         return Ok(());
     }
     let mut st = VerifTracerState::new(config(c.init, c.regime));
@@ -344,7 +356,7 @@ fn hist_test(c: &HistCase, obs: &mut Obs) -> CheckResult {
         // check_round issues the next round too; replay it on a clone so the chain continues
         let mut probe = st.clone();
         check_round(&mut probe, c.init, c.regime, n, m.max(1), start)?;
-        let _ = issue(&mut st, n, if c.regime == Regime::Tcp512 { (n / 2).max(1) } else { n });
+        let _ = issue(&mut st, n, if c.regime.max_per_round() == 512 { (n / 2).max(1) } else { n });
         st.advance_round(TimeToLive(1));
         let mut peek = st.clone();
         let next = issue(&mut peek, 1, 1)[0];
@@ -387,8 +399,12 @@ fn storm_strat() -> BoxedStrategy<SimCase> {
         prop_oneof![3 => 0u16..=63999, 1 => Just(33434u16)],
     )
         .prop_map(|(mut c, storms, init)| {
-            // initial sequences above 63999 are the recorded finding's region (see known_findings.json)
+            // initial sequences above 63999, and TCP with the Dublin strategy over IPv6, are the
+            // recorded findings' regions (see known_findings.json)
             c.cfg.initial_sequence = init;
+            if c.cfg.v6 && c.cfg.strategy == Strat::Dublin {
+                c.cfg.strategy = Strat::Classic;
+            }
             c.world.faults = storms
                 .into_iter()
                 .map(|(stage, nth, repeat)| FaultSpec { stage, nth, errno: libc::EADDRINUSE, repeat })
@@ -477,7 +493,7 @@ pub fn check() -> PropertyCheck {
     PropertyCheck {
         id: "C07",
         level: "exploration",
-        rule: "sequence-walk: for 9 boundary initial sequences x 3 regimes (<=254 per round, TCP <=512 per round, Dublin/IPv6) the real TracerState is brought to every round start within 600 of the initial sequence and within 600 of the wrap threshold and, from a clone, every round size 0..=max (thorough; every 37th plus boundaries in quick) followed by a round of 1 / 254 / max is issued through next_probe / reissue_probe / advance_round and checked: consecutive, < 65535, <= 512, next round starts at the previous end or the initial sequence, Dublin payload fits, and a response naming any sequence of the preceding round changes nothing; evaluations count (round start, size, next size) transitions. history: random round-size sequences up to 400 rounds. tcp-storm: simulated TCP runs with address-in-use storms of up to 530 consecutive bind/connect failures. Non-trivial = a wrap occurred or a round consumed > 254 sequences",
+        rule: "sequence-walk: for 9 boundary initial sequences x 4 regimes (<=254 per round, TCP <=512 per round, Dublin/IPv6, TCP+Dublin+IPv6) the real TracerState is brought to every round start within 600 of the initial sequence and within 600 of the wrap threshold and, from a clone, every round size 0..=max (thorough; every 37th plus boundaries in quick) followed by a round of 1 / 254 / max is issued through next_probe / reissue_probe / advance_round and checked: consecutive, < 65535, <= 512, next round starts at the previous end or the initial sequence, Dublin payload fits, and a response naming any sequence of the preceding round changes nothing; evaluations count (round start, size, next size) transitions. history: random round-size sequences up to 400 rounds. tcp-storm: simulated TCP runs with address-in-use storms of up to 530 consecutive bind/connect failures. Non-trivial = a wrap occurred or a round consumed > 254 sequences",
         assumptions: vec![
             "the gate `in_round(sequence)` of Strategy::recv_response is mirrored by the walk before it calls complete_probe",
             "round starts farther than 600 from both the initial sequence and the wrap threshold behave like their neighbours (no wrap is possible from there) and are reached only by the history sub-check",
@@ -485,7 +501,7 @@ pub fn check() -> PropertyCheck {
         subs: vec![
             Box::new(Enumerated {
                 name: "sequence-walk",
-                exhaustive_note: Some("thorough tier: all (round start in the two 600-wide regions, round size 0..=max, next size in {1,254,max}) for 9 initial sequences x 3 regimes"),
+                exhaustive_note: Some("thorough tier: all (round start in the two 600-wide regions, round size 0..=max, next size in {1,254,max}) for 9 initial sequences x 4 regimes"),
                 cases: walk_cases,
                 test: walk_test,
             }),
